@@ -17,7 +17,7 @@ RULE = ("(b) real objdump -d -M att output of enumerated code bytes: for elf64-x
         "byte-continuation, (bad)). Oracle: an independent classifier that splits lines on TAB: number, order and addresses "
         "of stream records = those of instruction lines; the record's mnemonic is one of the blank-separated tokens of the "
         "instruction text ('(bad)' <-> 'bad'); no exception. Non-trivial = instruction lines (distinct by construction: "
-        "each window is generated once).")
+        "each window is generated once). Corpus family: EVERY instruction line (about 347 000) of the real objdump output of the 10 binaries under tests/binary and of the 26 listings under tests/assembly (thorough: also system binaries where present), judged line by line with the same clauses.")
 ASSUMPTIONS = ["GNU objdump 2.40 AT&T output; windows cover 1- and 2-byte opcode/prefix space exhaustively, longer encodings through the tails"]
 LEVEL_TEXT = ("Every 1- and 2-byte prefix of the x86 code space (both ELF classes) disassembled by the real objdump and every "
               "short sequence of line kinds goes through the real parser; counts, order, addresses and mnemonics compared "
@@ -68,7 +68,7 @@ def run_long(shard, tier, h, res, known):
 
 def shards(tier):
     longs = [{"kind": "long", "n_lines": n} for n in ([32769, 65537, 70001] if tier == "quick" else [32769, 65537, 70001, 131073, 200001])]
-    return longs + ob.window_shards(tier) + ob.eos_shards(tier) + [{"kind": "exotic"}] + [{"kind": "lines", "lo": i, "n": 8} for i in range(8)]
+    return longs + ob.window_shards(tier) + ob.eos_shards(tier) + [{"kind": "exotic"}] + ob.corpus_shards(tier) + [{"kind": "lines", "lo": i, "n": 8} for i in range(8)]
 
 
 CONFIGS = [None, {"valid_addr_range": {"min": "401000", "max": "401fff"}}, {"mnemonics-full-match": True, "operands-full-match": True},
@@ -103,6 +103,8 @@ def run_shard(shard, tier, h, res, known):
         run_lines(shard, tier, h, res, known, CLAUSES)
     elif shard["kind"] == "eos":
         ob.run_eos_shard(shard, tier, h, res, known, CLAUSES, ID)
+    elif shard["kind"] == "corpus":
+        ob.run_corpus(shard, h, res, known, CLAUSES)
     elif shard["kind"] == "exotic":
         ob.run_exotic(h, res, known, CLAUSES)
     else:
